@@ -110,5 +110,7 @@ pub use query::{ExecutionStyle, Query};
 #[cfg(feature = "verif_hooks")]
 #[doc(hidden)]
 pub mod verif_hooks {
-    pub use crate::engine::computation_graph::verif_hooks::BackwardEdgeSet;
+    pub use crate::engine::computation_graph::verif_hooks::{
+        BackwardEdgeSet, NodeDump, dump_node,
+    };
 }
